@@ -181,6 +181,7 @@ type uset struct {
 	members map[string]bool // canonical
 	nextK   int             // next never-used member index (big sets grow monotonically)
 	big     bool
+	ver     int // changes with every upstream change of the membership
 }
 
 type upol struct {
@@ -207,8 +208,9 @@ type upstream struct {
 // ---------------------------------------------------------------- per-stream client model
 
 type cset struct {
-	typ     proto.IPSetUpdate_IPSetType
-	members map[string]bool
+	typ      proto.IPSetUpdate_IPSetType
+	members  map[string]bool
+	verified int // upstream version against which the members were last found equal; 0 after any message for the set
 }
 
 type client struct {
@@ -314,6 +316,9 @@ func (h *harness) main() {
 	h.p.Start()
 
 	nSteps := r.Src.Range(8, map[bool]int{false: 90, true: 220}[h.thorough], "n_steps")
+	if h.bigRun && nSteps > 60 {
+		nSteps = 60
+	}
 	r.Cfg("n_steps", nSteps)
 	steps := 0
 	for steps < nSteps {
@@ -410,9 +415,12 @@ func (h *harness) configure() {
 	h.roomy = r.Src.Chance(200, "roomy_channels")
 	h.density = r.Src.Range(200, 800, "ref_density")
 	h.joinsLeft = r.Src.Range(1, 12, "max_joins")
-	h.maxBigOps = r.Src.Range(1, 4, "max_big_ops")
-	if h.bigRun && nW > 3 {
-		nW = 3
+	h.maxBigOps = r.Src.Range(1, 3, "max_big_ops")
+	if h.bigRun && nW > 2 {
+		nW = 2
+	}
+	if h.bigRun && h.joinsLeft > 5 {
+		h.joinsLeft = 5
 	}
 	r.Cfg("n_workloads", nW)
 	r.Cfg("n_policies", nPol)
@@ -516,6 +524,9 @@ func (h *harness) idleAction() {
 	w := []int{14, 3, 1, 0, 1}
 	if nonEmpty > 0 {
 		w[3] = 5
+	}
+	if len(h.all) == 0 {
+		w[1] = 8 // nothing can be observed before the first join
 	}
 	switch r.Src.Weighted(w, "sched_idle_action") {
 	case 0:
@@ -1273,10 +1284,12 @@ func memberString(s *uset, k int, variant bool) string {
 // genMembers fills s.members for a fresh/replaced set and returns the wire members.
 func (h *harness) genMembers(s *uset, replace bool) []string {
 	r := h.r
+	h.ver++
+	s.ver = h.ver
 	if s.big {
 		h.bigOps++
 		max := policysync.MaxMembersPerMessage // generation target only: sizes straddle the documented chunk limit
-		n := []int{max + 1, max, max - 1, max + 37, 2*max + 1, 2 * max}[r.Src.Weighted([]int{4, 2, 1, 3, 1, 1}, "big_set_size")]
+		n := []int{max + 1, max, max - 1, max + 37, 2*max + 1}[r.Src.Weighted([]int{4, 2, 1, 3, 1}, "big_set_size")]
 		out := make([]string, 0, n)
 		s.members = make(map[string]bool, n+n/2)
 		s.nextK = 0
@@ -1304,6 +1317,8 @@ func (h *harness) genMembers(s *uset, replace bool) []string {
 
 func (h *harness) genDelta(s *uset) (add, del []string) {
 	r := h.r
+	h.ver++
+	s.ver = h.ver
 	if s.big {
 		h.bigOps++
 		max := policysync.MaxMembersPerMessage
@@ -1384,6 +1399,7 @@ func (h *harness) deliver(s *stream, m *proto.ToDataplane) {
 		if len(u.AddedMembers) > 1000 && len(u.RemovedMembers) > 0 || len(u.RemovedMembers) > 1000 {
 			r.Probe("split_ipset_delta_seen")
 		}
+		cs.verified = 0
 		for _, mm := range u.AddedMembers {
 			cs.members[canonMember(r, cs.typ, mm)] = true
 		}
@@ -1523,6 +1539,9 @@ func (h *harness) checkExact(s *stream) {
 		got, ok := c.sets[id]
 		r.Check("state_ipset_missing", ok, "%s: needed IP set %s never arrived", pfx, id)
 		r.Check("state_ipset_type", got.typ == us.typ, "%s: IP set %s has type %v on the stream, %v upstream", pfx, id, got.typ, us.typ)
+		if got.verified == us.ver {
+			continue // nothing was said about this set, upstream or on the stream, since it was last compared
+		}
 		same := len(got.members) == len(us.members)
 		diff := ""
 		if same {
@@ -1537,6 +1556,7 @@ func (h *harness) checkExact(s *stream) {
 			diff = memberDiff(us.members, got.members)
 		}
 		r.Check("state_ipset_members", same, "%s: IP set %s after merging all updates and deltas has %d members, upstream has %d (%s)", pfx, id, len(got.members), len(us.members), diff)
+		got.verified = us.ver
 	}
 	for _, id := range core.SortedKeys(c.sets) {
 		r.Check("state_ipset_extra", wantSets[id], "%s: IP set %s is still on the stream although nothing the workload needs references it", pfx, id)
